@@ -122,12 +122,13 @@ func Load(cfg *Config) (*Program, error) {
 
 // Explorer runs all paths of one harness.
 type Explorer struct {
-	cfg  *Config
-	P    *Program
-	mu   sync.Mutex
-	work [][]decision
-	busy int
-	cond *sync.Cond
+	unlisted int // violations not covered by a listed known class
+	cfg      *Config
+	P        *Program
+	mu       sync.Mutex
+	work     [][]decision
+	busy     int
+	cond     *sync.Cond
 
 	// aggregate
 	Paths        int
@@ -295,6 +296,8 @@ func (ex *Explorer) worker(id int) {
 	ex.mu.Unlock()
 }
 
+const maxUnlistedViolations = 40
+
 func (ex *Explorer) merge(in *Interp, r *PathResult) {
 	ex.mu.Lock()
 	defer ex.mu.Unlock()
@@ -309,6 +312,18 @@ func (ex *Explorer) merge(in *Interp, r *PathResult) {
 		}
 	}
 	ex.Violations = append(ex.Violations, r.Violations...)
+	for _, v := range r.Violations {
+		if v.Known == "" {
+			ex.unlisted++
+		}
+	}
+	// enough counterexamples: the verdict is VIOLATION whatever the rest of the frontier holds (violations of a
+	// listed known class do not count, so the unchanged tree is always explored to the end)
+	if ex.unlisted >= maxUnlistedViolations && !ex.stop {
+		ex.stop = true
+		ex.Notes["stopped_after_violations"]++
+		ex.cond.Broadcast()
+	}
 	if r.Status == "ok" {
 		for k := range r.Reach {
 			ex.Reach[k]++
